@@ -445,6 +445,16 @@ def canon_nd(t, ranks=None):
             return sum(1 for s in x[2][1:] if _is_free(s))
         return None
 
+    def free_axis_size(x, j):
+        """size of the j-th free axis of a selection of a base array"""
+        if T.is_app(x, 'sel') and not T.is_app(x[2][0], 'sel'):
+            free = [i for i, s_ in enumerate(x[2][1:]) if _is_free(s_)]
+            if j < len(free) and x[2][1:][free[j]] is STAR:
+                return index_term(T.app('shape', x[2][0]), N(free[j]))
+        if x in ranks and j < ranks[x]:
+            return index_term(T.app('shape', x), N(j))
+        return None
+
     def go(x):
         if x in memo:
             return memo[x]
@@ -477,6 +487,18 @@ def canon_nd(t, ranks=None):
                 free = [i for i, s in enumerate(specs) if _is_free(s)]
                 if len(free) == 1 and specs[free[0]] is STAR and not T.is_app(base, 'sel'):
                     r = index_term(T.app('shape', base), N(free[0]))
+            elif op == 'outer_iter_at' and len(args) == 2:
+                rk = rank_of(args[0])
+                if rk:
+                    r = _sel_compose(args[0], [args[1]] + [STAR] * (rk - 1))      # i-th sub-array along axis 0
+            elif op == 'n_outer_iter' and len(args) == 1:
+                r = free_axis_size(args[0], 0)
+            elif op == 'len' and len(args) == 1 and T.is_app(args[0], ('mean_axis', 'sum_axis')) and len(args[0][2]) == 2 and T.is_app(args[0][2][1], 'adt:ndarray::Axis'):
+                inner, ax = args[0][2][0], args[0][2][1][2][0][2][0]
+                if rank_of(inner) == 2 and T.is_num(ax) and ax[1] in (0, 1):
+                    r = free_axis_size(inner, 1 - ax[1])       # reducing one axis of a matrix leaves the other
+            elif op == 'min' and len(args) == 2 and args[0] is args[1]:
+                r = args[0]
             if r is None:
                 r = T.app(op, *args)
         elif k in ('num', 'sym'):
